@@ -89,9 +89,18 @@ def range_extension(ob):
     return z3.And(*out) if used else None
 
 
-def check(ob, facts, timeout_ms=10000, use_cvc5=True, extra=()):
-    """first try with let-definitions hidden (opaque): dropping hypotheses is sound and keeps the query small"""
+def check(ob, facts, timeout_ms=10000, use_cvc5=True, extra=(), prefer=None):
+    """first try with let-definitions hidden (opaque): dropping hypotheses is sound and keeps the query small.
+    prefer: case-split conditions of a recorded conjunct-wise proof -- that proof is replayed first"""
     from .engine import LET_DEFS
+    if prefer is not None:
+        t0 = time.time()
+        how = split_tactic(ob, facts, int(timeout_ms * 1.5), extra, prefer=tuple(prefer))
+        if how is not None:
+            ob.status, ob.model = "unsat", None
+            ob.backend = "z3-" + z3.get_version_string() + " " + how + " (replayed from the recorded proof)"
+            ob.time = time.time() - t0
+            return ob.status
     reduced = range_extension(ob) if ob.kind.startswith("inv.preserved") or "inv.preserved" in ob.oid else None
     if reduced is not None:
         full_goal = ob.goal
@@ -112,10 +121,130 @@ def check(ob, facts, timeout_ms=10000, use_cvc5=True, extra=()):
         if st == "unsat":
             ob.backend += " (let-definitions hidden)"
             return st
-    return _check(ob, facts, timeout_ms, use_cvc5, extra)
+    st = _check(ob, facts, timeout_ms, False, extra, refute=False)
+    if st == "unknown":
+        # z3 alone did not decide it: conjunct-wise proof with case splits, then the other back ends and the refuters
+        t0, spent = time.time(), ob.time
+        how = split_tactic(ob, facts, int(timeout_ms * 1.5), extra)
+        if how is not None:
+            ob.status, ob.model = "unsat", None
+            ob.backend = "z3-" + z3.get_version_string() + " " + how
+            ob.time = spent + time.time() - t0
+            return ob.status
+        spent += time.time() - t0
+        st = _check(ob, facts, timeout_ms, use_cvc5, extra, skip_z3=True)
+        ob.time += spent
+    return st
 
 
-def _check(ob, facts, timeout_ms=10000, use_cvc5=True, extra=(), refute=True):
+def goal_parts(g, depth=0):
+    """conjuncts of a goal, through conjunctions and (skolemised) universal quantifiers with an implication body; the goal is equivalent
+    to the conjunction of the parts"""
+    if z3.is_and(g):
+        return [p for ch in g.children() for p in goal_parts(ch, depth)]
+    if z3.is_quantifier(g) and g.is_forall() and depth < 2:
+        vs = [z3.FreshConst(g.var_sort(i), "sk") for i in range(g.num_vars())]
+        inst = z3.substitute_vars(g.body(), *reversed(vs))
+        if z3.is_implies(inst):
+            a, b = inst.children()
+            return [z3.Implies(a, p) for p in goal_parts(b, depth + 1)]
+        return goal_parts(inst, depth + 1)
+    return [g]
+
+
+def ground_conditions(exprs, limit=8):
+    """conditions of if-then-else terms without bound variables (candidates for a case split), most frequent first"""
+    count, keep = {}, {}
+    seen = set()
+
+    def has_var(e):
+        if z3.is_var(e):
+            return True
+        return any(has_var(c) for c in e.children())
+
+    def walk(e, under_binder):
+        if e.get_id() in seen:
+            return
+        seen.add(e.get_id())
+        if z3.is_quantifier(e):
+            walk(e.body(), True)
+            return
+        if z3.is_app(e) and e.decl().kind() == z3.Z3_OP_ITE:
+            c = e.children()[0]
+            if not (z3.is_true(c) or z3.is_false(c)) and not has_var(c):
+                count[c.get_id()] = count.get(c.get_id(), 0) + 1
+                keep[c.get_id()] = c
+        for ch in e.children():
+            walk(ch, under_binder)
+    for e in exprs:
+        walk(e, False)
+    def size(e):
+        return 1 + sum(size(c) for c in e.children())
+
+    def rank(i):
+        c = keep[i]
+        arith = z3.is_app(c) and c.decl().kind() in (z3.Z3_OP_LE, z3.Z3_OP_LT, z3.Z3_OP_GE, z3.Z3_OP_GT) and not all(z3.is_int_value(x) for x in c.children())
+        return (0 if arith else 1, size(c), -count[i])       # small comparisons of integer terms first (loop stage distinctions)
+    return [keep[i] for i in sorted(keep, key=rank) if not (z3.is_app(keep[i]) and all(z3.is_int_value(x) for x in keep[i].children()))][:limit]
+
+
+def _prove(hyps, facts, extra, goal, timeout_ms):
+    s = z3.Solver()
+    s.set("timeout", max(300, int(timeout_ms)))
+    if facts is not None:
+        for f in facts.items:
+            s.add(f)
+        for f in frac_lemmas(facts):
+            s.add(f)
+    for f in extra:
+        s.add(f)
+    for h in hyps:
+        s.add(h)
+    s.add(z3.Not(goal))
+    return s.check()
+
+
+def split_tactic(ob, facts, timeout_ms, extra=(), prefer=()):
+    """second attempt at an undecided obligation: the goal is split into its conjuncts, each proved on its own; a conjunct that stays
+    undecided is proved by a case split on a ground if-then-else condition C of the hypotheses (H, C |- G and H, not C |- G).
+    Returns a description of the proof or None."""
+    deadline = time.time() + timeout_ms / 1000.0
+    parts = goal_parts(ob.goal)
+    cands = None
+    splits = []
+    per = max(1500, min(4000, timeout_ms // 8))
+    for p in parts:
+        if time.time() > deadline:
+            return None
+        r = _prove(ob.hyps, facts, extra, p, per)
+        if r == z3.unsat:
+            continue
+        if r == z3.sat:
+            return None
+        if cands is None:
+            cands = ground_conditions(list(ob.hyps) + [ob.goal], limit=8 if not prefer else 40)
+            if prefer:
+                first = [c for c in cands if str(c).replace("\n", " ")[:60] in prefer]
+                cands = first + [c for c in cands if all(c is not f for f in first)][:8]
+        done = False
+        for c in list(cands):
+            if time.time() > deadline:
+                return None
+            if _prove(list(ob.hyps) + [c], facts, extra, p, per) == z3.unsat and _prove(list(ob.hyps) + [z3.Not(c)], facts, extra, p, per) == z3.unsat:
+                splits.append(str(c).replace("\n", " ")[:60])
+                cands.remove(c)
+                cands.insert(0, c)        # the distinction that helped once is tried first for the next conjunct
+                done = True
+                break
+        if not done:
+            return None
+    if len(parts) == 1 and not splits:
+        return None
+    ob.tactic_splits = sorted(set(splits))
+    return f"(goal split into {len(parts)} conjuncts" + (f"; case split on {', '.join(sorted(set(splits)))}" if splits else "") + ")"
+
+
+def _check(ob, facts, timeout_ms=10000, use_cvc5=True, extra=(), refute=True, skip_z3=False):
     t0 = time.time()
     try:
         if z3.is_true(z3.simplify(ob.goal)):
@@ -143,6 +272,8 @@ def _check(ob, facts, timeout_ms=10000, use_cvc5=True, extra=(), refute=True):
         for h in ob.hyps:
             s.add(h)
         s.add(z3.Not(ob.goal))
+        if skip_z3:
+            break           # the query is only built (for the other back ends); z3 had its turn already
         r = s.check()
         if r != z3.unknown:
             break
@@ -200,6 +331,9 @@ def discharge(report, timeout_ms=10000, use_cvc5=True, cores=None, record=None):
         key = f"{ob.oid}#{n}"
         hint = (cores or {}).get(key) if misses < 4 else None     # a core file that stopped matching is abandoned quickly
         done = False
+        prefer = None
+        if isinstance(hint, dict):
+            prefer, hint = hint.get("splits", []), None
         if hint is not None and all(isinstance(i, int) and 0 <= i < len(ob.hyps) for i in hint):
             full = ob.hyps
             ob.hyps = [full[i] for i in hint]
@@ -214,11 +348,14 @@ def discharge(report, timeout_ms=10000, use_cvc5=True, cores=None, record=None):
                 ob.status, ob.model = None, None
                 misses += 1
         if not done:
-            check(ob, report.facts, timeout_ms, use_cvc5)
+            check(ob, report.facts, timeout_ms, use_cvc5, prefer=prefer)
         if record is not None and ob.status == "unsat":
-            core = hint if done else unsat_core_indices(ob, report.facts, timeout_ms)
-            if core is not None:
-                record[key] = core
+            if "goal split into" in (ob.backend or ""):
+                record[key] = {"splits": list(getattr(ob, "tactic_splits", []))}      # conjunct-wise proof: its case splits are replayed
+            else:
+                core = hint if done else unsat_core_indices(ob, report.facts, timeout_ms)
+                if core is not None:
+                    record[key] = core
     return report
 
 
